@@ -36,21 +36,21 @@ def body_get_atom_count : List String := ["return self._atom_count"]
 def sig_get_bond_count : String × String × List (String × String × String) := ("", "", [("self", "", "")])
 def body_get_bond_count : List String := ["return len(self._bonds)"]
 def sig_get_bonds : String × String × List (String × String × String) := ("", "", [("self", "", ""), ("a0", "int32", "")])
-def body_get_bonds : List String := ["cdef int v0=0, v1=0", "cdef uint32 v2 = _to_positive_index(a0, self._atom_count)", "cdef uint32[:,:] v4 = self._bonds", "cdef np.ndarray v5 = np.zeros(self._max_bonds_per_atom, v6=np.uint32)", "cdef uint32[:] v7 = v5", "cdef np.ndarray v8 = np.zeros(self._max_bonds_per_atom, v6=np.uint8)", "cdef uint8[:] v9 = v8", "for v0 in range(v4.shape[0]):", "  if v4[v0,0] == v2:", "    v7[v1] = v4[v0,1]", "    v9[v1] = v4[v0,2]", "    v1 += 1", "  elif v4[v0,1] == v2:", "    v7[v1] = v4[v0,0]", "    v9[v1] = v4[v0,2]", "    v1 += 1", "v5 = v5[:v1]", "v8 = v8[:v1]", "return v5, v8"]
+def body_get_bonds : List String := ["cdef int v0=0, v1=0", "cdef uint32 v2 = _to_positive_index(a0, self._atom_count)", "cdef uint32[:,:] v3 = self._bonds", "cdef np.ndarray v4 = np.zeros(self._max_bonds_per_atom, dtype=np.uint32)", "cdef uint32[:] v5 = v4", "cdef np.ndarray v6 = np.zeros(self._max_bonds_per_atom, dtype=np.uint8)", "cdef uint8[:] v7 = v6", "for v0 in range(v3.shape[0]):", "  if v3[v0,0] == v2:", "    v5[v1] = v3[v0,1]", "    v7[v1] = v3[v0,2]", "    v1 += 1", "  elif v3[v0,1] == v2:", "    v5[v1] = v3[v0,0]", "    v7[v1] = v3[v0,2]", "    v1 += 1", "v4 = v4[:v1]", "v6 = v6[:v1]", "return v4, v6"]
 def sig_get_all_bonds : String × String × List (String × String × String) := ("", "", [("self", "", "")])
-def body_get_all_bonds : List String := ["cdef int v0=0", "cdef uint32 v1, v2, v3", "cdef uint32[:,:] v4 = self._bonds", "cdef np.ndarray v5 = np.full((self._atom_count, self._max_bonds_per_atom), -1, v7=np.int32)", "cdef int32[:,:] v8 = v5", "cdef np.ndarray v9 = np.full((self._atom_count, self._max_bonds_per_atom), -1, v7=np.int8)", "cdef int8[:,:] v10 = v9", "cdef np.ndarray v11 = np.zeros(self._atom_count, v7=np.uint32)", "cdef uint32[:] v12 = v11", "for v0 in range(v4.shape[0]):", "  v1 = v4[v0,0]", "  v2 = v4[v0,1]", "  v3 = v4[v0,2]", "  v8[v1, v12[v1]] = v2", "  v8[v2, v12[v2]] = v1", "  v10[v1, v12[v1]] = v3", "  v10[v2, v12[v2]] = v3", "  v12[v1] += 1", "  v12[v2] += 1", "return v5, v9"]
+def body_get_all_bonds : List String := ["cdef int v0=0", "cdef uint32 v1, v2, v3", "cdef uint32[:,:] v4 = self._bonds", "cdef np.ndarray v5 = np.full((self._atom_count, self._max_bonds_per_atom), -1, dtype=np.int32)", "cdef int32[:,:] v6 = v5", "cdef np.ndarray v7 = np.full((self._atom_count, self._max_bonds_per_atom), -1, dtype=np.int8)", "cdef int8[:,:] v8 = v7", "cdef np.ndarray v9 = np.zeros(self._atom_count, dtype=np.uint32)", "cdef uint32[:] v10 = v9", "for v0 in range(v4.shape[0]):", "  v1 = v4[v0,0]", "  v2 = v4[v0,1]", "  v3 = v4[v0,2]", "  v6[v1, v10[v1]] = v2", "  v6[v2, v10[v2]] = v1", "  v8[v1, v10[v1]] = v3", "  v8[v2, v10[v2]] = v3", "  v10[v1] += 1", "  v10[v2] += 1", "return v5, v7"]
 def sig_adjacency_matrix : String × String × List (String × String × String) := ("", "", [("self", "", "")])
 def body_adjacency_matrix : List String := ["v0 = np.zeros((self._atom_count, self._atom_count), dtype=bool)", "v0[self._bonds[:,0], self._bonds[:,1]] = True", "v0[self._bonds[:,1], self._bonds[:,0]] = True", "return v0"]
 def sig_bond_type_matrix : String × String × List (String × String × String) := ("", "", [("self", "", "")])
 def body_bond_type_matrix : List String := ["v0 = np.full((self._atom_count, self._atom_count), -1, dtype=np.int8)", "v0[self._bonds[:,0], self._bonds[:,1]] = self._bonds[:,2]", "v0[self._bonds[:,1], self._bonds[:,0]] = self._bonds[:,2]", "return v0"]
 def sig_add_bond : String × String × List (String × String × String) := ("", "", [("self", "", ""), ("a0", "int32", ""), ("a1", "int32", ""), ("a2", "", "BondType.ANY")])
-def body_add_bond : List String := ["if a2 >= len(BondType):", "  raise ValueError", "cdef uint32 v0 = _to_positive_index(a0, self._atom_count)", "cdef uint32 v2 = _to_positive_index(a1, self._atom_count)", "_sort(&v0, &v2)", "cdef int v3", "cdef uint32[:,:] v4 = self._bonds", "cdef bint v5 = False", "for v3 in range(v4.shape[0]):", "  if (v4[v3,0] == v0 and v4[v3,1] == v2):", "    v5 = True", "    v4[v3,2] = int(a2)", "    break", "if not v5:", "  self._bonds = np.append(self._bonds, np.array([(v0, v2, int(a2))], dtype=np.uint32), axis=0)", "  self._max_bonds_per_atom = self._get_max_bonds_per_atom()"]
+def body_add_bond : List String := ["if a2 >= len(BondType):", "  raise ValueError", "cdef uint32 v0 = _to_positive_index(a0, self._atom_count)", "cdef uint32 v1 = _to_positive_index(a1, self._atom_count)", "_sort(&v0, &v1)", "cdef int v2", "cdef uint32[:,:] v3 = self._bonds", "cdef bint v4 = False", "for v2 in range(v3.shape[0]):", "  if (v3[v2,0] == v0 and v3[v2,1] == v1):", "    v4 = True", "    v3[v2,2] = int(a2)", "    break", "if not v4:", "  self._bonds = np.append(self._bonds, np.array([(v0, v1, int(a2))], dtype=np.uint32), axis=0)", "  self._max_bonds_per_atom = self._get_max_bonds_per_atom()"]
 def sig_remove_bond : String × String × List (String × String × String) := ("", "", [("self", "", ""), ("a0", "int32", ""), ("a1", "int32", "")])
-def body_remove_bond : List String := ["cdef uint32 v0 = _to_positive_index(a0, self._atom_count)", "cdef uint32 v2 = _to_positive_index(a1, self._atom_count)", "_sort(&v0, &v2)", "cdef int v3", "cdef uint32[:,:] v4 = self._bonds", "for v3 in range(v4.shape[0]):", "  if (v4[v3,0] == v0 and v4[v3,1] == v2):", "    self._bonds = np.delete(self._bonds, v3, axis=0)"]
+def body_remove_bond : List String := ["cdef uint32 v0 = _to_positive_index(a0, self._atom_count)", "cdef uint32 v1 = _to_positive_index(a1, self._atom_count)", "_sort(&v0, &v1)", "cdef int v2", "cdef uint32[:,:] v3 = self._bonds", "for v2 in range(v3.shape[0]):", "  if (v3[v2,0] == v0 and v3[v2,1] == v1):", "    self._bonds = np.delete(self._bonds, v2, axis=0)"]
 def sig_remove_bonds_to : String × String × List (String × String × String) := ("", "", [("self", "", ""), ("a0", "int32", "")])
-def body_remove_bonds_to : List String := ["cdef uint32 v0 = _to_positive_index(a0, self._atom_count)", "cdef np.ndarray v2 = np.ones(len(self._bonds), v3=np.uint8)", "cdef uint8[:] v4 = v2", "cdef int v5", "cdef uint32[:,:] v6 = self._bonds", "for v5 in range(v6.shape[0]):", "  if (v6[v5,0] == v0 or v6[v5,1] == v0):", "    v4[v5] = False", "self._bonds = self._bonds[v2.astype(bool, copy=False)]"]
+def body_remove_bonds_to : List String := ["cdef uint32 v0 = _to_positive_index(a0, self._atom_count)", "cdef np.ndarray v1 = np.ones(len(self._bonds), dtype=np.uint8)", "cdef uint8[:] v2 = v1", "cdef int v3", "cdef uint32[:,:] v4 = self._bonds", "for v3 in range(v4.shape[0]):", "  if (v4[v3,0] == v0 or v4[v3,1] == v0):", "    v2[v3] = False", "self._bonds = self._bonds[v1.astype(bool, copy=False)]"]
 def sig_remove_bonds : String × String × List (String × String × String) := ("", "", [("self", "", ""), ("a0", "", "")])
-def body_remove_bonds : List String := ["cdef int v0=0, v1=0", "cdef uint32[:,:] v2 = self._bonds", "cdef uint32[:,:] v3 = a0._bonds", "cdef np.ndarray v4 = np.ones(v2.shape[0], v5=np.uint8)", "cdef uint8[:] v6 = v4", "for v0 in range(v2.shape[0]):", "  for v1 in range(v3.shape[0]):", "    if v2[v0,0] == v3[v1,0] and v2[v0,1] == v3[v1,1]:", "        v6[v0] = False", "self._bonds = self._bonds[v4.astype(bool, copy=False)]"]
+def body_remove_bonds : List String := ["cdef int v0=0, v1=0", "cdef uint32[:,:] v2 = self._bonds", "cdef uint32[:,:] v3 = a0._bonds", "cdef np.ndarray v4 = np.ones(v2.shape[0], dtype=np.uint8)", "cdef uint8[:] v5 = v4", "for v0 in range(v2.shape[0]):", "  for v1 in range(v3.shape[0]):", "    if v2[v0,0] == v3[v1,0] and v2[v0,1] == v3[v1,1]:", "        v5[v0] = False", "self._bonds = self._bonds[v4.astype(bool, copy=False)]"]
 def sig_merge : String × String × List (String × String × String) := ("", "", [("self", "", ""), ("a0", "", "")])
 def body_merge : List String := ["return BondList(max(self._atom_count, a0._atom_count), np.concatenate([a0.as_array(), self.as_array()], axis=0))"]
 def sig_dunder_adddunder : String × String × List (String × String × String) := ("", "", [("self", "", ""), ("a0", "", "")])
@@ -66,9 +66,9 @@ def body_dunder_eqdunder : List String := ["if not isinstance(a0, BondList):", "
 def sig_dunder_containsdunder : String × String × List (String × String × String) := ("", "", [("self", "", ""), ("a0", "", "")])
 def body_dunder_containsdunder : List String := ["if not isinstance(a0, tuple) and len(tuple) != 2:", "  raise TypeError", "cdef int v0=0", "cdef uint32 v1, v2", "cdef uint32 v3 = min(a0)", "cdef uint32 v4 = max(a0)", "cdef uint32[:,:] v5 = self._bonds", "for v0 in range(v5.shape[0]):", "  v1 = v5[v0,0]", "  v2 = v5[v0,1]", "  if v3 == v1 and v4 == v2:", "    return True", "return False"]
 def sig_get_max_bonds_per_atom : String × String × List (String × String × String) := ("", "", [("self", "", "")])
-def body_get_max_bonds_per_atom : List String := ["if self._atom_count == 0:", "  return 0", "cdef int v0", "cdef uint32[:,:] v1 = self._bonds", "cdef np.ndarray v2 = np.zeros(self._atom_count, v3=np.uint32)", "cdef uint32[:] v4 = v2", "for v0 in range(v1.shape[0]):", "  v4[v1[v0,0]] += 1", "  v4[v1[v0,1]] += 1", "return np.max(v4)"]
+def body_get_max_bonds_per_atom : List String := ["if self._atom_count == 0:", "  return 0", "cdef int v0", "cdef uint32[:,:] v1 = self._bonds", "cdef np.ndarray v2 = np.zeros(self._atom_count, dtype=np.uint32)", "cdef uint32[:] v3 = v2", "for v0 in range(v1.shape[0]):", "  v3[v1[v0,0]] += 1", "  v3[v1[v0,1]] += 1", "return np.max(v3)"]
 def sig_remove_redundant_bonds : String × String × List (String × String × String) := ("", "", [("self", "", "")])
-def body_remove_redundant_bonds : List String := ["cdef int v0", "cdef uint32[:,:] v1 = self._bonds", "cdef np.ndarray v2 = np.ones(v1.shape[0], v3=np.uint8)", "cdef uint8[:] v4 = v2", "cdef ptr[:] v5 = np.zeros(self._atom_count, v3=np.uint64)", "cdef int[:] v6 = np.zeros(self._atom_count, v3=np.int32)", "cdef uint32 v7, v8", "cdef uint32* v9", "cdef int v10", "try:", "  for v0 in range(v1.shape[0]):", "    v7 = v1[v0,0]", "    v8 = v1[v0,1]", "    if _in_array(<uint32*>v5[v7], v8, v6[v7]):", "        v4[v0] = False", "    else:", "      v10 = v6[v7] +1", "      v9 = <uint32*>v5[v7]", "      v9 = <uint32*>realloc(v9, v10 * sizeof(uint32))", "      if not v9:", "        raise MemoryError", "      v9[v10-1] = v8", "      v5[v7] = <ptr>v9", "      v6[v7] = v10", "finally:", "  for v11 in range(v5.shape[0]):", "    free(<int*>v5[v11])", "self._bonds = self._bonds[v2.astype(bool, copy=False)]"]
+def body_remove_redundant_bonds : List String := ["cdef int v0", "cdef uint32[:,:] v1 = self._bonds", "cdef np.ndarray v2 = np.ones(v1.shape[0], dtype=np.uint8)", "cdef uint8[:] v3 = v2", "cdef ptr[:] v4 = np.zeros(self._atom_count, dtype=np.uint64)", "cdef int[:] v5 = np.zeros(self._atom_count, dtype=np.int32)", "cdef uint32 v6, v7", "cdef uint32* v8", "cdef int v9", "try:", "  for v0 in range(v1.shape[0]):", "    v6 = v1[v0,0]", "    v7 = v1[v0,1]", "    if _in_array(<uint32*>v4[v6], v7, v5[v6]):", "        v3[v0] = False", "    else:", "      v9 = v5[v6] +1", "      v8 = <uint32*>v4[v6]", "      v8 = <uint32*>realloc(v8, v9 * sizeof(uint32))", "      if not v8:", "        raise MemoryError", "      v8[v9-1] = v7", "      v4[v6] = <ptr>v8", "      v5[v6] = v9", "finally:", "  for v10 in range(v4.shape[0]):", "    free(<int*>v4[v10])", "self._bonds = self._bonds[v2.astype(bool, copy=False)]"]
 def sig_to_positive_index : String × String × List (String × String × String) := ("uint32", "except-1", [("a0", "int32", ""), ("a1", "uint32", "")])
 def body_to_positive_index : List String := ["cdef uint32 v0", "if a0 < 0:", "  v0 = <uint32> (a1 + a0)", "  if v0 < 0:", "    raise IndexError", "  return v0", "else:", "  if <uint32> a0 >= a1:", "    raise IndexError", "  return <uint32> a0"]
 def sig_to_positive_index_array : String × String × List (String × String × String) := ("", "", [("a0", "", ""), ("a1", "", "")])
